@@ -107,6 +107,11 @@ fn handle(job: &Value, scratch: &PathBuf) -> Value {
             }
         }
     }
+    if wants(job, "config_toml") {
+        // the effective configuration when the options come through the API
+        return json!({"id": job["id"], "config_toml": config.all_options().to_toml().unwrap_or_default(),
+                      "bad_opts": bad_opts});
+    }
     config.set().emit_mode(EmitMode::Stdout);
     config.set().verbose(Verbosity::Quiet);
     let canon = path.canonicalize().unwrap_or(path.clone());
